@@ -126,6 +126,25 @@ def r2_router_guarded_membership(ctx):
                     'filters by the router for db_state.db_name: tables '
                     'would be created on the wrong database',
                     key='installable-unfiltered')
+    # Django's router contract: allow_migrate(db, app_label, model_name=...)
+    # receives the *lower-cased* _meta.model_name; allow_migrate_model(db,
+    # model) derives it itself
+    for pf in p.module('compat.db').all_funcs():
+        for c in walk_no_nested(pf.node):
+            if isinstance(c, ast.Call) and call_name(c) == 'allow_migrate' \
+                    and kwarg(c, 'model_name') is not None:
+                v = kwarg(c, 'model_name')
+                if isinstance(v, ast.Attribute) and v.attr == 'model_name':
+                    ctx.ok(pf, 'router hint model_name is _meta.model_name',
+                           c)
+                else:
+                    ctx.finding(pf, c, 'router.allow_migrate is given '
+                                'model_name=%s; routers are written against '
+                                'the lower-cased _meta.model_name, so a '
+                                'router keyed on model names no longer '
+                                'recognises any model and everything is '
+                                'allowed on every database' % unparse(v),
+                                key='router-model-name-kind')
     # the predicate chain ends in the real router
     for fn in ('db_router_allows_schema_upgrade', 'db_router_allows_migrate'):
         pf = p.func('compat.db', fn)
@@ -214,11 +233,15 @@ def r3_mutations_filtered(ctx):
 
 def _db_sources(f: Func) -> Set[str]:
     out = {x for x in f.params if x in DB_PARAMS}
+    if 'evolver' in f.params:
+        out.add('evolver.database_name')
     if f.cls is not None:
         for c in f.cls.mro():
             for a, v in c.init_attrs().items():
                 if isinstance(v, ast.Name) and v.id in DB_PARAMS:
                     out.add('self.%s' % a)
+                if a == 'evolver':
+                    out.add('self.evolver.database_name')
     return out
 
 
